@@ -22,8 +22,8 @@ package store
 //     release) ("proceeds promptly once it finishes");
 //   * Close may return an error only if the holder still held the gate about
 //     ten seconds (>= c31MinFail) after Close was called.
-// The slack is far above the cost of a close of these tiny stores (tens of ms)
-// and far below the ten-second limit.
+// The slack (1.5 s) is far above the cost of a close of these tiny stores (tens
+// of ms; see the lateness labels) and far below the ten-second limit.
 
 import (
 	"context"
@@ -38,8 +38,8 @@ import (
 )
 
 const (
-	c31Slack   = 3 * time.Second // "promptly"
-	c31MinFail = 8 * time.Second // "about ten seconds", lower edge
+	c31Slack   = 1500 * time.Millisecond // "promptly"
+	c31MinFail = 8 * time.Second         // "about ten seconds", lower edge
 )
 
 type c31Case struct {
@@ -63,7 +63,16 @@ func c31Gen(rt *rapid.T) c31Case {
 		holds = []int{0, 50, 300, 1000, 3000, 5000, 7000, 11000, 12500}
 	}
 	if c.Kind != "snapshot" {
-		c.HoldMs = rapid.SampledFrom(holds).Draw(rt, "holdMs")
+		switch rapid.IntRange(0, 9).Draw(rt, "holdClass") {
+		case 0, 1, 2, 3, 4:
+			c.HoldMs = rapid.SampledFrom(holds).Draw(rt, "holdMs")
+		case 5, 6:
+			c.HoldMs = rapid.IntRange(1100, 1600).Draw(rt, "holdMsA")
+		case 7, 8:
+			c.HoldMs = rapid.IntRange(2400, 3700).Draw(rt, "holdMsB")
+		default: // one long holder now and then
+			c.HoldMs = rapid.IntRange(5000, 5800).Draw(rt, "holdMsC")
+		}
 		switch rapid.IntRange(0, 3).Draw(rt, "offsetKind") {
 		case 0:
 			c.OffsetMs = 0
@@ -115,7 +124,7 @@ func (w *c31BlockingWriter) Write(p []byte) (int, error) {
 
 func TestVerif_C31_Close(t *testing.T) {
 	rec := vstat.New(t, "C31", "close",
-		"real single-node Store; gate holder kind in {binary backup into a blocking writer, compressed backup, white-box CAS, concurrent user snapshot} x hold d in {0,50,300,1000,3000 ms} (thorough: up to 12.5 s) x Close(wait) offset (0, inside, just before release, after release) x snapshot-on-close x wait; non-trivial = the gate was still held when Close was called; distinct by (kind,hold,offset,flags)")
+		"real single-node Store; gate holder kind in {binary backup into a blocking writer, compressed backup, white-box CAS, concurrent user snapshot} x hold d in {0,50,300,1000,3000 ms} or generated in 1.1-1.6 s, 2.4-3.7 s, now and then 5.0-5.8 s (thorough: up to 12.5 s) x Close(wait) offset (0, inside, just before release, after release) x snapshot-on-close x wait; non-trivial = the gate was still held when Close was called; distinct by (kind,hold,offset,flags)")
 	rapid.Check(t, func(rt *rapid.T) {
 		c := c31Gen(rt)
 		dir, err := os.MkdirTemp("", "c31-")
@@ -218,7 +227,18 @@ func TestVerif_C31_Close(t *testing.T) {
 		gateHeld := ownerAtClose != "" && (rel.IsZero() || closeCall.Before(rel))
 		rec.Case(gateHeld, fmt.Sprintf("%s/%d/%d/%v/%v", c.Kind, c.HoldMs, c.OffsetMs, c.SnapOnClose, c.Wait))
 		rec.Label("kind=" + c.Kind)
-		rec.Label(fmt.Sprintf("hold=%dms", c.HoldMs))
+		switch {
+		case c.HoldMs < 1100:
+			rec.Label(fmt.Sprintf("hold=%dms", c.HoldMs))
+		case c.HoldMs < 2000:
+			rec.Label("hold=1.1-1.6s")
+		case c.HoldMs < 4000 && c.HoldMs != 3000:
+			rec.Label("hold=2.4-3.7s")
+		case c.HoldMs >= 5000 && c.HoldMs < 6000 && c.HoldMs != 5000:
+			rec.Label("hold=5.0-5.8s")
+		default:
+			rec.Label(fmt.Sprintf("hold=%dms", c.HoldMs))
+		}
 		if gateHeld {
 			rec.Label("gate-held-at-close")
 		} else {
@@ -260,6 +280,14 @@ func TestVerif_C31_Close(t *testing.T) {
 		ref := closeCall
 		if !rel.IsZero() && rel.After(ref) {
 			ref = rel
+		}
+		switch late := closeRet.Sub(ref); {
+		case late < 100*time.Millisecond:
+			rec.Label("lateness<100ms")
+		case late < 500*time.Millisecond:
+			rec.Label("lateness<500ms")
+		case late < c31Slack:
+			rec.Label("lateness<1.5s")
 		}
 		if late := closeRet.Sub(ref); late > c31Slack {
 			sig := "C31/close-late-after-release"
